@@ -467,7 +467,7 @@ func (c *Ctx) strategyNameTables() (validator, create, set []string, okAll bool)
 	if len(validator) == 0 {
 		// the strategy table may live in a merged validator
 		for _, fn := range p.Funcs {
-			if fn.Signature.Recv() != nil && QualType(namedOf(fn.Signature.Recv().Type())) == "config.Config" && strings.HasPrefix(fn.Name(), "validate") {
+			if pk := fnPkg(fn); pk != nil && strings.HasSuffix(pk.Pkg.Path(), "/internal/config") {
 				if ks := c.mapLiteralKeys(fn); contains(ks, "round_robin") {
 					validator = ks
 				}
